@@ -272,6 +272,10 @@ Definition mig_model (c : World.world * (str + (str * cfgdata)) * store * list b
             if a['ran']:
                 return f'the parameter-mode chain ran {a["ran"]} for migrated results'
             for n, v in a['values'].items():
+                if a.get('old_fullname', {}).get(n, n) != n:
+                    # known in name mode under this name too, but created (and computed) under another one: the value it
+                    # showed there belongs to that other configuration (see the has_data rule above)
+                    continue
                 if n in obs['old_values'] and json.dumps(v, sort_keys=True) != json.dumps(obs['old_values'][n], sort_keys=True):
                     return f'{n}: the migrated value differs from the original'
         return k3
